@@ -14,7 +14,10 @@ RULE = ("get_cursor_position: EVERY string `pre` of length <= 4 (quick) / <= 5 (
         "(top_usable_row -2..6, last row None/0..6, reported row 0..8); get_cursor_vertical_diff: seeded sequences of "
         "calls, each with 0-3 nested calls injected from inside in_stream.read while the query is in progress, and with "
         "queries that RAISE (input ahead of the report without a callback; a read returning '') - the flag must be clear "
-        "afterwards and the next call must query and account normally; sequences of calls with failing ones interleaved. "
+        "afterwards and the next call must query and account normally; sequences of calls with failing ones interleaved; "
+        "whole histories (shared with C07): renders incl. taller than the screen with cursor_pos on a scrolled-off row, "
+        "followed directly by a diff, and terminal resizes with content movement followed by a diff - conservation judged "
+        "against the cursor address actually written to the terminal. "
         "non-trivial = distinct cases whose pre is non-empty, or that move the cursor, or that nest")
 ASSUMPTIONS = ["input ahead of the report contains no complete look-alike report (CSI digits ; digits R): the code cannot "
                "tell it from the real one (such inputs are still compared model<->code)",
@@ -447,6 +450,31 @@ def check(ctx):
         if w:
             ctx.violation("get_cursor_vertical_diff: " + w, c, None)
 
+    # whole histories: renders (incl. taller than the screen with the cursor on a scrolled-off row), the terminal being
+    # resized with its content moving, get_cursor_vertical_diff - shared with props/c07.py.  Conservation is judged
+    # against the cursor address the window actually WROTE (reference terminal), not against _last_cursor_row.
+    from props import c07
+    r = ctx.rng
+    hist = [c07.settle(c07.rand_scrolled_off(r)) for _ in range(1500 if ctx.thorough else 350)]
+    hist += [c07.settle(c07.rand_mixed(r)) for _ in range(1500 if ctx.thorough else 350)]
+    houts = {}
+
+    def hist_impl(c):
+        try:
+            o = c07.run_history(c)
+            houts[id(c)] = o
+            return c07.impl_reply(o)
+        except Exception as e:  # noqa: BLE001
+            houts[id(c)] = e
+            return "raised %s: %s" % (type(e).__name__, e)
+
+    ctx.tie("C18/render-move-diff histories", hist, c07.line, hist_impl, c07.canon, c07.canon)
+    for c in hist:
+        o = houts[id(c)]
+        ctx.count(c, tag="history:%d-diffs" % sum(1 for st in c["steps"] if st[0] == "D"))
+        w = judge(lambda c_, o_: c07.conservation(c_, o_), c, o)
+        if w:
+            ctx.violation("render/movement/diff history: " + w, c, None)
     # sequences of calls: the bookkeeping telescopes over any history of movements
     seq_oracle(ctx)
 
